@@ -11,6 +11,7 @@ import (
 	"syscall"
 
 	"github.com/hedzr/logg/slog"
+	errorsv3 "gopkg.in/hedzr/errors.v3"
 
 	"verifharness/gen"
 	"verifharness/mon"
@@ -276,6 +277,8 @@ type c03env struct {
 	seq   int
 	file6 *os.File
 	bare  []*bareW
+	testing bool // the process runs under go test
+	capped bool // this sequence: W2 and W4 take 40 bytes per Write and report no error
 }
 
 // bareW keeps what it is handed and nothing else.
@@ -300,6 +303,16 @@ func newC03env(configureDefault bool) (*c03env, error) {
 		e.pool = append(e.pool, mon.New(e.log, id, s))
 		e.shape = append(e.shape, s.String())
 		e.lvlS[id] = s.LevelSettable()
+	}
+	// W2 (LevelSettable) and W4 are size-capped sinks in every other sequence: they take the first 40 bytes of what they
+	// are handed and say so, without an error. Each is still told the severity and handed the record ONCE.
+	for _, i := range []int{2, 4} {
+		e.pool[i].(mon.W).Core().Fail = func(_ int, p []byte) (bool, int) {
+			if e.capped && len(p) > 40 {
+				return false, 40
+			}
+			return false, len(p)
+		}
 	}
 	e.pool = append(e.pool, mon.NewPtr(e.log, "W5"))
 	e.shape = append(e.shape, "ptr-plain")
@@ -493,6 +506,11 @@ var c03forms = func() []c03form {
 		c03form{"Print(\"\")", slog.AlwaysLevel, true, func(lg *slog.Entry, id string) { lg.Print("") }, nil},
 		c03form{"Print(\" \\n\")", slog.AlwaysLevel, true, func(lg *slog.Entry, id string) { lg.Print(" \n") }, nil},
 		c03form{name: "PrintContext(\"\\n\")", sev: slog.AlwaysLevel, blank: true, emit: func(lg *slog.Entry, id string) { lg.PrintContext(bg, "\n") }},
+		// records that carry an error with a stack trace (under go test the text formats append its details to the record):
+		// what a record carries is no input of where it goes
+		c03form{name: "Info(id, err with a stack trace)", sev: slog.InfoLevel, emit: func(lg *slog.Entry, id string) { lg.Info(id, "err", errorsv3.New("boom"), "k", 1) }},
+		c03form{name: "OK(id, err with a stack trace)", sev: slog.OKLevel, emit: func(lg *slog.Entry, id string) { lg.OK(id, "err", errorsv3.New("boom")) }},
+		c03form{name: "LogAttrs(custplain, err with a stack trace)", sev: lvlCustPlain, emit: func(lg *slog.Entry, id string) { lg.LogAttrs(bg, lvlCustPlain, id, "err", errorsv3.New("boom")) }},
 	)
 	// ... and through the log/slog front end built on the logger with format options (JSON, then colour: at least one of
 	// the two differs from what the logger printed before): a record of that front end goes where the logger's go
@@ -523,6 +541,38 @@ type c03viol struct{ clause, detail string }
 // runSeq applies the sequence (as methods, or as New options when viaOpts and every op has an
 // option form) to a fresh logger of the given kind, probes every severity and compares with the model.
 func (e *c03env) runSeq(kind string, viaOpts bool, ops []wop, rp func(k string, n int64)) []c03viol {
+	e.capped = !e.capped
+	if e.capped {
+		rp("sequences_with_size_capped_destinations_in_the_pool", 1)
+	}
+	if out := e.runSeq1(kind, viaOpts, ops, rp); len(out) > 0 {
+		return out
+	}
+	// some OTHER part of the application owns a logger that it reset to the package defaults (it holds default devices of
+	// its own now) and closes what that logger's getters hand out at shutdown: the loggers here print where they printed
+	e.seq++
+	x := slog.New(fmt.Sprintf("elsewhere%d", e.seq)).Root()
+	x.ResetWriters()
+	func() {
+		defer func() { _ = recover() }()
+		for _, lv := range []slog.Level{slog.InfoLevel, slog.ErrorLevel} {
+			if cl, ok := x.GetWriterBy(lv).(io.Closer); ok {
+				_ = cl.Close()
+			}
+		}
+	}()
+	rp("sequences_followed_by_a_Close_of_another_loggers_own_default_devices", 1)
+	fresh := slog.New(fmt.Sprintf("fresh-after-close%d", e.seq)).Root()
+	fresh.SetColorMode(false)
+	fresh.SetLevel(slog.AlwaysLevel)
+	out := e.probeAll(fresh, newModel(), rp)
+	for i := range out {
+		out[i].detail = "after another logger (reset to the package defaults) closed what ITS getters hand out, a logger that was never given writers: " + out[i].detail
+	}
+	return out
+}
+
+func (e *c03env) runSeq1(kind string, viaOpts bool, ops []wop, rp func(k string, n int64)) []c03viol {
 	model := newModel()
 	var lg *slog.Entry
 	mk := func(opts ...any) *slog.Entry {
@@ -581,6 +631,11 @@ func (e *c03env) runSeq(kind string, viaOpts bool, ops []wop, rp func(k string, 
 func (e *c03env) probeAll(lg *slog.Entry, model *wmodel, rp func(k string, n int64)) []c03viol {
 	var out []c03viol
 	for _, pf := range c03forms {
+		if pf.blank && e.testing {
+			// (under go test the library's report about a failing destination is followed by the details of the error it
+			// carries: lines of their own on the same device, which a probe that counts LINES cannot tell from its own)
+			continue
+		}
 		sev := pf.sev
 		e.seq++
 		id := fmt.Sprintf("probe-%d-", e.seq)
@@ -871,6 +926,7 @@ func c03random(c *Ctx) {
 		c.R.Violation(-1, "harness", "C03/harness", err.Error(), nil)
 		return
 	}
+	e.testing = c.Testing
 	alpha := c03alphabet(true)
 	c.Each(func(idx int, r *gen.R) {
 		n := r.Range(3, 10)
